@@ -49,6 +49,10 @@ func main() {
 		checks.Diag()
 	case "smoke":
 		checks.Smoke()
+	case "C13":
+		checks.CheckC13(*tier)
+	case "C14":
+		checks.CheckC14(*tier)
 	case "C15":
 		fsmon.CheckC15(*tier)
 	case "C16":
